@@ -69,12 +69,12 @@ def verify_registry(reg, only=None, both=False, log=None):
     for rep in reports:
         for pair in rep.obligations:
             o = pair[0]
-            items.append(('%s::%s' % (rep.proc.key, o.label), solve.to_smt2(axioms, o.hyps, o.goal)))
+            items.append(('%s::%s' % (rep.proc.key, o.label), solve.Lazy(axioms, o.hyps, o.goal)))
             index.append(pair)
     # lemmas of the registry
     lemma_pairs = []
     for label, hyps, goal, npend in reg.lemmas:
-        items.append(('lemma::' + label, solve.to_smt2(
+        items.append(('lemma::' + label, solve.Lazy(
             all_axioms(reg, npend) if npend >= 0 else core.prelude_axioms(), hyps, goal)))
         pair = [symex.Obligation('lemma:' + label, hyps, goal, 'lemma'), None]
         lemma_pairs.append(pair)
@@ -84,9 +84,9 @@ def verify_registry(reg, only=None, both=False, log=None):
     smoke_index = []
     for rep in reports:
         if rep.status == 'ok':
-            smoke_items.append(('smoke::' + rep.proc.key, solve.to_smt2(axioms, getattr(rep, 'pre', []), z3.BoolVal(False))))
+            smoke_items.append(('smoke::' + rep.proc.key, solve.Lazy(axioms, getattr(rep, 'pre', []), z3.BoolVal(False))))
             smoke_index.append(rep)
-    smoke_items.append(('smoke::axioms', solve.to_smt2(axioms, [], z3.BoolVal(False))))
+    smoke_items.append(('smoke::axioms', solve.Lazy(axioms, [], z3.BoolVal(False))))
     results = solve.discharge(items, both=both)
     for pair, r in zip(index, results):
         pair[1] = r
